@@ -63,6 +63,7 @@ def build_batch(workdir, plan, with_examples=True, directed=None, extra=None):
             name = "%s_%s" % (prof, name)
             lst.append({"name": name, "kind": "axcut", "prog": p, "linear": False})
             args[name] = a
+    os.makedirs(workdir, exist_ok=True)
     lp = os.path.join(workdir, "list.json")
     json.dump(lst, open(lp, "w"))
     art = os.path.join(workdir, "art")
